@@ -64,6 +64,14 @@ ChainDocumented == \A c \in Modes :
 \* the opposite reading of the seeded kind (the exclusion of `a OR -b AND c` ignored) must fail
 ExclusionIgnored == \A c \in Modes : MS(Ch3("", Atom(q), "OR", "-", A, "AND", "", B), c) = MS(q, c) \cup MS(B, c)
 
+\* a phrase keeps the positions of its words when the analyzer drops one of them (LW): the literal text (9) and
+\* `ab ba c` (7) match `"ab zz..z c"`, `ab c` (1) does not; a dropped word in front or at the end changes nothing
+ASSUME PhraseGaps ==
+  /\ MS(<<"ph", "title", <<1, LW, 4>>, 0, FALSE>>, FALSE) = {7, 9}
+  /\ MS(<<"ph", "title", <<1, 4>>, 0, FALSE>>, FALSE) = {1}
+  /\ MS(<<"ph", "title", <<LW, 1, 4>>, 0, FALSE>>, FALSE) = {1} /\ MS(<<"ph", "title", <<1, 4, LW>>, 0, FALSE>>, FALSE) = {1}
+  /\ MS(<<"ph", "body", <<5, LW, LW, 3>>, 0, FALSE>>, FALSE) = {9}
+
 \* the printer
 Styles == {<<0, 0, 0, 0, 0, 0, 0>>, <<1, 2, 3, 4, 5, 6, 7>>, <<3, 1, 0, 2, 7, 5, 4>>, <<2, 2, 1, 1, 0, 3, 5>>}
 Count(t, c) == Cardinality({p \in 1..Len(t) : t[p] = c})
